@@ -4,6 +4,7 @@ set -e
 cd "$(dirname "$0")"
 export CARGO_NET_OFFLINE=true
 mkdir -p .build evidence
+export CARGO_TARGET_DIR="$(pwd)/.build/harness"
 python3 tools/extract.py
 (cd lean/Bp7 && lake build Bp7 bp7model)
 (cd harness && RUSTFLAGS="--cfg bp7_verif" cargo build --offline && RUSTFLAGS="--cfg bp7_verif" cargo build --offline --release)
